@@ -244,7 +244,7 @@ func (c *c19) flow(b *world.Browser, issuer string, doc *oidc.DiscoveryConfigura
 	clientID := "web"
 	cl := w.Store.Clients[clientID]
 	cl.LoginBase = issuer + "/login"
-	verifier := "verifier-0123456789abcdefghijklmnopqrstuvwxyz-ABCDEFGHIJ"
+	verifier := "verifier.0123456789_abcdefghijklmnopqrstuvwxyz~ABCDEFGHIJ-x" // every kind of unreserved character (RFC 7636 4.1)
 	q := url.Values{"client_id": {clientID}, "redirect_uri": {cl.Redirects[0]}, "response_type": {"code"}, "scope": {"openid"}, "state": {"s"}, "nonce": {"n"}}
 	if s256 {
 		q.Set("code_challenge", world.S256(verifier))
